@@ -1,7 +1,7 @@
 //! Pure (in-process, no sockets) checks: C02, C03 (pure half), C04 (pure half), C19, C20.
 //! All parameters come from the environment (see report::Params).
 
-use gpa_verif::props::{c02, c03, c04, c13, c20};
+use gpa_verif::props::{c02, c03, c04, c13, c19, c20};
 use gpa_verif::report::{Known, Params, Stats, Violation};
 use gpa_verif::runner::Drive;
 use std::time::Instant;
@@ -30,6 +30,16 @@ fn main() {
             let n2 = params.share(if th { 6_000_000 } else { 100_000 });
             Drive { params: &params, stats: &mut stats, known: &known }.run("c04.own", 5, c04::own_strategy(), n2, c04::eval_own);
             (c04::RULE.into(), vec!["the host canonicalises as documented in hyper_client.rs and the property statement; the order among parameters is only checked up to the two admissible lexicographic orders", "header sets (unique names); duplicates belong to C05"])
+        }
+        "C19" => {
+            let n = params.share(if th { 300_000 } else { 4_000 });
+            Drive { params: &params, stats: &mut stats, known: &known }.run("c19.log", 19, c19::log_strategy(), n, c19::eval_log);
+            let n = params.share(if th { 300_000 } else { 6_000 });
+            Drive { params: &params, stats: &mut stats, known: &known }.run("c19.dumps", 191, c19::dump_strategy(), n, c19::eval_dump);
+            let n = params.share(if th { 60_000 } else { 1_200 });
+            Drive { params: &params, stats: &mut stats, known: &known }.run("c19.events", 192, c19::ev_strategy(), n, c19::eval_ev);
+            let _ = std::fs::remove_dir_all(format!("{}.work", params.out));
+            (c19::RULE.into(), vec!["instance APIs of the rolling logger, the event logger and the rule-dump writer, on scratch directories", "files left by an earlier run were produced with the same settings"])
         }
         "C20" => {
             if params.replay.is_none() {
